@@ -192,6 +192,7 @@ class PseudoInverseLemma(Contract):
 
     prop = "C13"
     name = "PseudoInverseLemma"
+    lemma_files = (__import__("pathlib").Path(__file__).resolve().parent.parent / "lemmas" / "PseudoInverse.lean",)
     target = None
     strength = "U"
     trusted = ("Lean 4.33 kernel and Mathlib (Matrix, diagonal, transpose); axioms propext, Classical.choice, Quot.sound",)
